@@ -530,6 +530,8 @@ def p_bc_util(a):
         return {"lists": [list(map(_int, l)) for l in u.find_bin_completions(a["x"], list(a["items"]), a["C"])]}
     if f == "cfd":
         return {"lists": [list(map(_int, l)) for l in u.check_for_dominance([list(l) for l in a["lists"]])]}
+    if f == "lb":
+        return {"num": _int(u.lower_bound(a["C"], list(a["items"])))}
     if f == "isdom":
         return {"bool": bool(u.is_dominant(list(a["l1"]), list(a["l2"])))}
     if f == "undom":
